@@ -808,6 +808,25 @@ pub fn mutate(base: &Program, rule: Rule, k: usize) -> Option<(Program, String)>
             } else if m.hit() {
                 p.defs.add_enum("Eq", vec![("W", None), ("V", Some(vec![Ty::u8(), Ty::Enum("Eq".into())]))]);
                 m.mark("an enum that contains itself is added");
+            } else if m.hit() {
+                // a cycle of two enums that is also referred to from outside the cycle
+                p.defs.add_struct("Outq", vec![("id", Ty::u8()), ("inner", Ty::Enum("Nodeq".into()))]);
+                p.defs.add_enum("Nodeq", vec![("Leaf", None), ("Branch", Some(vec![Ty::Enum("Linkq".into())]))]);
+                p.defs.add_enum("Linkq", vec![("End", None), ("Next", Some(vec![Ty::u8(), Ty::Enum("Nodeq".into())]))]);
+                m.mark("two enums that contain each other, used by a struct outside the cycle");
+            } else if m.hit() {
+                // a cycle of two structs that is also referred to from outside the cycle (by two structs)
+                p.defs.add_struct("Aq", vec![("b", Ty::Struct("Bq".into()))]);
+                p.defs.add_struct("Bq", vec![("c", Ty::arr(Ty::Struct("Cq".into()), 1))]);
+                p.defs.add_struct("Cq", vec![("b", Ty::Tup(vec![Ty::u8(), Ty::Struct("Bq".into())]))]);
+                p.defs.add_struct("Zq", vec![("c", Ty::Struct("Cq".into()))]);
+                m.mark("two structs that contain each other, used by two structs outside the cycle");
+            } else if m.hit() {
+                p.defs.add_enum("Oq", vec![("U", None), ("V", Some(vec![Ty::Enum("Pq".into())]))]);
+                p.defs.add_enum("Pq", vec![("U", None), ("V", Some(vec![Ty::Struct("Qq".into())]))]);
+                p.defs.add_struct("Qq", vec![("r", Ty::Enum("Rq".into()))]);
+                p.defs.add_enum("Rq", vec![("U", None), ("V", Some(vec![Ty::Enum("Pq".into())]))]);
+                m.mark("a cycle of three definitions, reached from an enum outside the cycle");
             }
         }
         Rule::PubFnNoParamsCalled => {
@@ -969,6 +988,7 @@ pub fn run(tier: Tier) -> i32 {
                 }
                 for (mp, desc, site) in variants {
                     let src = render(&mp);
+                    set_context(&src);
                     let e = local.entry(format!("{rule:?}")).or_insert((0, 0, 0));
                     e.0 += 1;
                     let case = json!({"kind": "mutant", "base": bsite, "edit": desc, "source": src});
@@ -1012,6 +1032,7 @@ pub fn run(tier: Tier) -> i32 {
         // the scope model: every identifier use rewritten to every name bound elsewhere but not in scope
         for (mp, desc) in super::c17_scope::scope_mutants(base) {
             let src = render(&mp);
+            set_context(&src);
             let e = local.entry("ScopeModel".to_string()).or_insert((0, 0, 0));
             e.0 += 1;
             let site = format!("N/ScopeModel/{}", desc.split('`').next().unwrap_or("").trim());
